@@ -234,12 +234,12 @@ func c17Check(sc c17Scenario, x *c17Exec, col *evid.Collector) {
 	}
 	rp := c17Replay{Scenario: sc.Name, Start: sc.Start, Choices: x.choices(), Trace: x.trace}
 	where := fmt.Sprintf("%s from %s, schedule %s", sc.Name, sc.Start, strings.Join(x.trace, " | "))
-	c17Judge(sc, "M", where, rp, names, contents, x.errs, len(world.WalkRSL(base)), world.WalkRSL(x.final), x.final, col)
+	c17Judge(sc, "M", where, rp, names, contents, x.errs, len(world.WalkRSL(base)), world.WalkRSL(x.final), x.final, x.preemptionsBefore(len(x.points)), col)
 }
 
 // c17Judge is the oracle shared by both lanes: log is the final chain read raw
 // (newest first), readers is a handle on the final store for pkg/rsl's readers.
-func c17Judge(sc c17Scenario, lane, where string, rp c17Replay, names, contents []string, errs []error, startLen int, log []world.RSLEntry, readers gitstore.Storer, col *evid.Collector) {
+func c17Judge(sc c17Scenario, lane, where string, rp c17Replay, names, contents []string, errs []error, startLen int, log []world.RSLEntry, readers gitstore.Storer, preemptions int, col *evid.Collector) {
 	outcome := []string{}
 	added := log
 	if len(log) >= startLen {
@@ -274,7 +274,15 @@ func c17Judge(sc c17Scenario, lane, where string, rp c17Replay, names, contents 
 	if msg := world.CheckChain(log); msg != "" {
 		sig := "C17:log-not-a-valid-chain"
 		if strings.Contains(msg, "but its parent has") || strings.Contains(msg, "but its parent is numbered") {
-			sig = "C17:number-does-not-follow-parent:tip-read-for-numbering-stale-when-commit-reads-it-again"
+			// the known race needs a foreign entry to land between a writer's
+			// two reads of the tip, i.e. at least one preemption; a wrong
+			// number in a schedule that runs the writers one after the other
+			// is a different defect
+			if preemptions > 0 {
+				sig = "C17:number-does-not-follow-parent:tip-read-for-numbering-stale-when-commit-reads-it-again"
+			} else {
+				sig = "C17:number-does-not-follow-parent:in-a-schedule-without-preemption"
+			}
 		}
 		col.Violation(sig, where+": "+msg, rp)
 		return
